@@ -110,5 +110,3 @@ func devMain(args []string) {
 		}
 	}
 }
-
-func checkMain(args []string) {}
